@@ -209,9 +209,13 @@ def enc_ref(g, form, w, v):
 
 def gen_info(rng, le, nunits=None, versions=(2, 3, 4, 5), exclude=(), unit_types=None, max_depth=5,
              max_kids=4, sibling=None, types_section=False, small=False, top_extra=None, ref_attrs=True,
-             shared_abbrev=None, allow_big=True):
+             shared_abbrev=None, allow_big=True, force=None, init_str=None, init_lstr=None):
     """Build a set of debug sections. Returns Built."""
     g = Gen(rng, le)
+    if init_str:
+        g.strs = bytearray(init_str)       # tables other generators already index into
+    if init_lstr:
+        g.lstrs = bytearray(init_lstr)
     B = Built()
     B.le = le
     info = bytearray()
@@ -225,6 +229,10 @@ def gen_info(rng, le, nunits=None, versions=(2, 3, 4, 5), exclude=(), unit_types
         ver = rng.choice(versions)
         fmt = rng.choice([32, 64])
         asz = rng.choice([4, 8])
+        if force and ui < len(force):      # caller-fixed unit parameters
+            ver = force[ui].get('ver', ver)
+            fmt = force[ui].get('fmt', fmt)
+            asz = force[ui].get('asz', asz)
         osz = fmt // 8
         in_types = types_section and ver == 4 and rng.random() < 0.5
         if ver >= 5:
